@@ -313,6 +313,18 @@ func runEntry(prog *ssa.Program, epkg *ssa.Package, entry string, cfg Config, po
 		obls = append(obls, o)
 	}
 	// group panic obligations into one disjunctive query per run when many
+	if os.Getenv("GOSMT_PROFILE") != "" {
+		kinds := map[string]int{}
+		for _, o := range obls {
+			kinds[o.Kind+":"+o.Label]++
+		}
+		fmt.Fprintf(os.Stderr, "PROFILE obligations=%d terms=%d\n", len(obls), len(TS.all))
+		for k, v := range kinds {
+			if v > 20 {
+				fmt.Fprintf(os.Stderr, "PROFILE   %d x %s\n", v, k)
+			}
+		}
+	}
 	res.Obligations = make([]OblResult, len(obls))
 	var wg sync.WaitGroup
 	sem := make(chan struct{}, cap(pool.procs))
